@@ -2,12 +2,14 @@
 (* Scenarios for the speed tweens of non-zero length (C05): unit and value   *)
 (* of the speed before, unit and value of the target, duration in buffers.   *)
 EXTENDS Integers, Sequences, TLC, Json
-Units == {"tps", "spt"}
+Units == {"tps", "spt", "tpm"}
 Vals == {<<1, 1>>, <<2, 1>>, <<4, 1>>, <<1, 2>>, <<1, 4>>, <<3, 2>>}
 Durs == {1, 2, 4, 7}
 VARIABLE sc
 Init == sc \in [u0 : Units, v0 : Vals, u1 : Units, v1 : Vals, d : Durs]
 Next == UNCHANGED sc
 Spec == Init /\ [][Next]_sc
-Dump == PrintT(<<"BEHAVIOUR", ToJson(<<[u0 |-> sc.u0, v0n |-> sc.v0[1], v0d |-> sc.v0[2], u1 |-> sc.u1, v1n |-> sc.v1[1], v1d |-> sc.v1[2], d |-> sc.d]>>)>>)
+\* (a value in ticks per minute is sixty times the same number in ticks per second)
+M(u) == IF u = "tpm" THEN 60 ELSE 1
+Dump == PrintT(<<"BEHAVIOUR", ToJson(<<[u0 |-> sc.u0, v0n |-> M(sc.u0) * sc.v0[1], v0d |-> sc.v0[2], u1 |-> sc.u1, v1n |-> M(sc.u1) * sc.v1[1], v1d |-> sc.v1[2], d |-> sc.d]>>)>>)
 =============================================================================
